@@ -65,7 +65,11 @@ func (d *mapTypeFieldTextDecoder) Decode(req *protocol.Request, params param.Par
 				defaultValue = tagInfo.Default
 				found := checkRequireJSON(req, tagInfo)
 				if found {
-					err = nil
+					// an optional JSON key that is absent satisfies nothing: keep the
+					// 'required' error of an earlier source tag
+					if tagInfo.Required || keyExist(req, tagInfo) {
+						err = nil
+					}
 				} else {
 					err = fmt.Errorf("'%s' field is a 'required' parameter, but the request does not have this parameter", tagInfo.Value)
 				}
